@@ -23,6 +23,14 @@ CHECKS = {
              "conversion laws and compound units are enumerated/sampled. Exhaustive on the pair domain, sampling beyond it.",
         note="R reads the same definition files (wrong literals in the files are C20's); 29 float-tainted units (fractional power of a scale) are compared with the float tolerance in every registry type.",
         design="5/C02"),
+    "C04": dict(
+        technique="bounded-exhaustive enumeration of unit containers over a 3-letter alphabet (all ordered pairs, sampled triples) in 3 exponent types x 3 layers against a dict model of the free abelian group; Hypothesis containers over real unit names; Hypothesis integer matrices for pi-theorem with own Fraction rank/null-space oracle",
+        text="All 343 containers over {a,b,c} with exponents in {-2..2, +-1/2} and their ordered pairs are multiplied, divided, raised and compared in the "
+             "UnitsContainer, ParserHelper and Unit/Quantity layers for int/float, Decimal and Fraction exponents; each result must equal the dict model, "
+             "carry no zero entry, hash equal when equal and leave operands untouched. Dimensionality homomorphism is checked against R. pi_theorem results "
+             "must be dimensionless, independent and of size n - rank. Exhaustive over the pair domain in the thorough tier, seed-strided in quick.",
+        note="Float/Decimal exponents restricted to dyadic rationals (no rounding artefacts). Integrality of pi-theorem exponents is not part of the statement and not asserted.",
+        design="5/C04"),
 }
 
 NOT_YET = "check not built yet in this session (work in progress, see DESIGN.md section 5)"
